@@ -270,9 +270,23 @@ class ConstFold:
             v = self.ev(e.operand)
             if isinstance(v, (int, float)):
                 return -v
+        if isinstance(e, ast.BoolOp):
+            vals = [self.ev(x) for x in e.values]
+            if all(isinstance(v, (str, int, tuple)) or v is None for v in vals):
+                if isinstance(e.op, ast.Or):
+                    for v in vals:
+                        if v:
+                            return v
+                    return vals[-1]
+                for v in vals:
+                    if not v:
+                        return v
+                return vals[-1]
         if isinstance(e, ast.Attribute):
             if e.attr == "location":
                 return LOCATION_STANDIN
+            if norm(e) in ("os.curdir", "os.path.curdir"):
+                return "."
             if e.attr == "hex" and isinstance(e.value, ast.Call) and callee_name(self.ctx, self.fi, e.value) in ("uuid.uuid4", "uuid.uuid1"):
                 return "0123456789abcdef0123456789abcdef"
             if e.attr == "name":
@@ -299,6 +313,14 @@ class ConstFold:
                 return os.path.dirname(self.ev(e.args[0]))
             if nm == "os.path.basename":
                 return os.path.basename(self.ev(e.args[0]))
+            if nm == "tempfile.mkstemp":
+                # (descriptor, path): dir / prefix + random part + suffix  (documented naming of mkstemp)
+                kw = {k.arg: self.ev(k.value) for k in e.keywords if k.arg}
+                pos = [self.ev(a) for a in e.args]
+                suffix = kw.get("suffix", pos[0] if len(pos) > 0 else "") or ""
+                prefix = kw.get("prefix", pos[1] if len(pos) > 1 else "tmp") or "tmp"
+                d = kw.get("dir", pos[2] if len(pos) > 2 else None) or "/tmp"
+                return (7, os.path.join(d, prefix + "k3j2h1g0" + suffix))
             if nm == "os.path.split":
                 return os.path.split(self.ev(e.args[0]))
             if nm == "os.path.splitext":
@@ -362,22 +384,35 @@ def call_site_envs(ctx, fi):
     return envs
 
 
-def calls_transitive(ctx, fi, expr, depth=0, seen=None):
+def is_memoised(fi):
+    """the function's value is computed once and reused (functools.lru_cache /
+    cache / cached_property or a hand-made module-level memo decorator name)"""
+    for d in getattr(fi.node, "decorator_list", []):
+        t = norm(d.func if isinstance(d, ast.Call) else d)
+        if t.rsplit(".", 1)[-1] in ("lru_cache", "cache", "cached_property", "memoize", "memoise", "cached"):
+            return True
+    return False
+
+
+def calls_transitive(ctx, fi, expr, depth=0, seen=None, skip_memoised=False):
     """callee names of every call in expr, descending into the single return
-    expression of resolved in-repo helpers."""
+    expression of resolved in-repo helpers.  With skip_memoised the body of a
+    memoised helper is not entered (its value is not recomputed per call)."""
     seen = seen if seen is not None else set()
     out = []
     for c in ast.walk(expr):
         if isinstance(c, ast.Call):
             out.append(callee_name(ctx, fi, c))
             cf = callee_func(ctx, fi, c)
+            if cf is not None and skip_memoised and is_memoised(cf):
+                continue
             if cf is not None and cf.qualname not in seen and depth < 5:
                 seen.add(cf.qualname)
                 for r in walk_shallow(cf.node):
                     if isinstance(r, ast.Return) and r.value is not None:
-                        out += calls_transitive(ctx, cf, r.value, depth + 1, seen)
+                        out += calls_transitive(ctx, cf, r.value, depth + 1, seen, skip_memoised)
                     elif isinstance(r, ast.Assign):
-                        out += calls_transitive(ctx, cf, r.value, depth + 1, seen)
+                        out += calls_transitive(ctx, cf, r.value, depth + 1, seen, skip_memoised)
     return out
 
 
